@@ -1,4 +1,5 @@
 import CoreBGP.Props.DecTie
+import CoreBGP.Model.Lifecycle
 /-! Decision ties of C20 (see `Props.DecTie` for the method). -/
 namespace CoreBGP.Props.DecTieC20
 open CoreBGP CoreBGP.Model CoreBGP.Gen CoreBGP.Lemmas.DecTie CoreBGP.Props.DecTie
@@ -75,5 +76,50 @@ theorem config_valid (c : PeerCfg) : validateConfig c = goConfigValid (configEnv
   generalize decide (c.localAS = 0) = z1
   generalize decide (c.remoteAS = 0) = z2
   cases z1 <;> cases z2 <;> cases lv <;> cases rv <;> cases l4 <;> cases r4 <;> cases l6 <;> cases r6 <;> rfl
+
+end CoreBGP.Props.DecTieC20
+
+namespace CoreBGP.Props.DecTieC20
+open CoreBGP CoreBGP.Model CoreBGP.Gen CoreBGP.Lemmas.DecTie CoreBGP.Props.DecTie
+open CoreBGP.Model.Lifecycle
+
+/-! ## C20 / C10: the conditions on which the life-cycle model (`Model.Lifecycle`) starts and stops peers -/
+
+private theorem d_add2 : decision "Server.AddPeer" "if" 2 = .atom "exists" := by decide
+private theorem d_add3 : decision "Server.AddPeer" "if" 3 = .atom "s.serving" := by decide
+private theorem d_del0 : decision "Server.DeletePeer" "if" 0 = .not (.atom "exists") := by decide
+private theorem d_del1 : decision "Server.DeletePeer" "if" 1 = .atom "s.serving" := by decide
+private theorem d_close0 : decision "Server.Close" "if" 0 = .not (.atom "s.serving") := by decide
+
+def lifeEnv (s : LState) (k : Nat) : Env :=
+  envOf [("exists", b2i (hasKey s k)), ("s.serving", b2i s.serving)]
+
+/-- `AddPeer`: refused iff the key exists (`if exists`); otherwise the new peer is started iff `if s.serving` — on
+nothing else, in particular not on whether `Close` has already signalled -/
+theorem add_peer_decisions (s : LState) (k : Nat) :
+    lstep s (.add k) =
+      (if BExp.eval (lifeEnv s k) (decision "Server.AddPeer" "if" 2) then some s
+       else some { s with peers := s.peers ++ [(k, BExp.eval (lifeEnv s k) (decision "Server.AddPeer" "if" 3))] }) := by
+  simp only [d_add2, d_add3, eval_atom, lifeEnv, envOf, List.find?, b2i_ne_zero, lstep]
+  cases hasKey s k <;> simp [b2i_ne_zero]
+
+/-- `DeletePeer`: `ErrPeerNotExist` iff `!exists`; otherwise the peer is removed (and stopped iff `s.serving`, the
+same flag by which it was started: `C20Life.started_iff_serving`) -/
+theorem delete_peer_decisions (s : LState) (k : Nat) :
+    lstep s (.del k) =
+      (if BExp.eval (lifeEnv s k) (decision "Server.DeletePeer" "if" 0) then some s
+       else some { s with peers := s.peers.filter (·.1 != k) }) ∧
+    decision "Server.DeletePeer" "if" 1 = .atom "s.serving" := by
+  refine ⟨?_, d_del1⟩
+  simp only [d_del0, eval_not, eval_atom, lifeEnv, envOf, List.find?, b2i_ne_zero, lstep]
+  cases hasKey s k <;> simp [b2i_ne_zero]
+
+/-- `Close`: returns at once iff `!s.serving`, otherwise waits for the tear-down -/
+theorem close_decision (s : LState) :
+    lstep s .closeCall =
+      some { s with closeSignalled := true,
+                    closers := s.closers ++ [if BExp.eval (lifeEnv s 0) (decision "Server.Close" "if" 0) then .returned else .waiting] } := by
+  simp only [d_close0, eval_not, eval_atom, lifeEnv, envOf, List.find?, b2i_ne_zero, lstep]
+  cases s.serving <;> simp [b2i_ne_zero]
 
 end CoreBGP.Props.DecTieC20
